@@ -3,8 +3,9 @@ import Comdex.Model.LimitBid
 /-! Driver for the English-auction + limit-bid models (property C11).
 
 Lines (tab separated; accounts: 0 custody, 1 collector, 2.. users; denominations are small indices):
-  eng.begin   ver nUsers closingFeeRaw withdrawalFeeRaw assets(id:denom,…) now  STATE
+  eng.begin   ver nUsers closingFeeRaw withdrawalFeeRaw assets(id:denom,…) now debtBidFloor(-|int)  STATE
   eng.tick    now outcome                                                     STATE   (real BeginBlocker(s))
+  eng.esm     0|1                                                             STATE   (x/esm status of the app set)
   eng.bid     who app mapping id denom amt outcome                            STATE
   eng.dbid    who app mapping id denom amt expDenom expAmt outcome            STATE
   eng.dep     who coll debt prem denom amt outcome                            STATE
@@ -17,8 +18,10 @@ DIFF: the model's outcome / state differs from the real one.  MON: a decidable f
 on the REAL before/after states:
   custody_standing_bid  custody − initial custody − limit deposits − retained fees = Σ standing bids (+ lots held)
   bid_factor            an accepted bid improves on the standing one by ⌈factor·standing⌉ (mirrored for debt)
+  bid_monotone          an accepted bid is not worse than the standing one (debt: not a larger lot)
   outbid_refund         the outbid bidder got back exactly its bid, the new bidder paid exactly its own, nobody else moved
   one_winner            at close exactly the standing bidder receives exactly the lot, nobody else moves
+  esm_refund            an emergency-shutdown close refunds exactly the standing stake, nobody else moves
   losers_whole          every user's balance = initial − own standing bids − own deposits − fees paid + lots won
   limit_own_deposit     an accepted withdraw / cancel is covered by the caller's own outstanding deposit
   limit_denom           … and is paid in the deposited denomination
@@ -183,6 +186,10 @@ def bidMons (st : St) (r r' : Real) (a : Auction) (who : Acct) (amt : Int) : Lis
     | some _ => if a.kind.increasing then (if amt ≥ minNext a then [] else ["bid_factor"])
                 else (if amt ≤ maxNext a then [] else ["bid_factor"])
     | none => []
+  let m1c := match a.bidder with
+    | some _ => if a.kind.increasing then (if amt ≥ a.pay then [] else ["bid_monotone"])
+                else (if amt ≤ a.lot then [] else ["bid_monotone"])
+    | none => []
   let m1b := match findAuc r'.aucs a.id with
     | some a' => if a'.bidder == some who && (if a.kind.increasing then a'.pay == amt && a'.lot == a.lot else a'.lot == amt && a'.pay == a.pay)
                  then [] else ["bid_factor"]
@@ -190,15 +197,19 @@ def bidMons (st : St) (r r' : Real) (a : Auction) (who : Acct) (amt : Int) : Lis
   let expected (x : Acct) (d : Denom) : Int :=
     (if x = who ∧ d = a.payDenom then -payIn else 0) + (if a.bidder = some x ∧ d = a.payDenom then a.pay else 0)
   let m2 := if (users st).all fun x => denoms.all fun d => delta r r' x d == expected x d then [] else ["outbid_refund"]
-  m1 ++ m1b ++ m2
+  m1 ++ m1c ++ m1b ++ m2
 
 def tickMons (st : St) (r r' : Real) : List String × List Auction :=
   let gone := r.aucs.filter fun a => (findAuc r'.aucs a.id).isNone
-  let m0 := if gone.all fun a => a.bidder.isSome then [] else ["one_winner"]
+  let esmGone := gone.filter fun a => emergency st.m.eng a      -- closed by the shutdown path: refund, no winner
+  let won := gone.filter fun a => !(emergency st.m.eng a)
+  let m0 := if won.all fun a => a.bidder.isSome then [] else ["one_winner"]
   let expected (x : Acct) (d : Denom) : Int :=
-    (gone.map fun c => if c.bidder = some x ∧ c.lotDenom = d then payout c else 0).sum
-  let m1 := if (users st).all fun x => denoms.all fun d => delta r r' x d == expected x d then [] else ["one_winner"]
-  (m0 ++ m1, gone)
+    (won.map fun c => if c.bidder = some x ∧ c.lotDenom = d then payout c else 0).sum +
+    (esmGone.map fun c => if c.bidder = some x ∧ c.payDenom = d then c.pay else 0).sum
+  let m1 := if (users st).all fun x => denoms.all fun d => delta r r' x d == expected x d then []
+            else [if esmGone.isEmpty then "one_winner" else "esm_refund"]
+  (m0 ++ m1, won)
 
 def findDep (r : Real) (k : Key) : Option (Denom × Int) :=
   match r.deps.find? fun (k', _, _) => k' == k with
@@ -238,11 +249,12 @@ def runOp (st : St) (op : LimitBid.Op) : Bool × LimitBid.State :=
 
 def handle (st : St) (seq : String) (f : List String) : St × List String :=
   match f with
-  | ["eng.begin", ver, n, cf, wf, assets, now, state] =>
+  | ["eng.begin", ver, n, cf, wf, assets, now, dfloor, state] =>
     match parseNat? ver, parseNat? n, parseInt? cf, parseInt? wf, parseAssets assets, parseInt? now, parseReal state with
     | some ver, some n, some cf, some wf, some assets, some now, some r =>
       let m : LimitBid.State :=
-        { eng := { bank := r.bank, cust := 0, coll := 1, live := [], closed := [], now := now },
+        { eng := { bank := r.bank, cust := 0, coll := 1, live := [], closed := [], now := now,
+                   debtFloor := if dfloor = "-" then none else parseInt? dfloor },
           deps := [], bv := [], fees := [], assets := assets, closingFee := cf, withdrawalFee := wf }
       let st' : St := { ver := ver, nUsers := n, m := m, r := r, bank0 := r.bank }
       let bad := if r.aucs.isEmpty && r.deps.isEmpty && r.bv.isEmpty then [] else [s!"BAD\t{seq}\tbegin with a non-empty auction state"]
@@ -262,6 +274,12 @@ def handle (st : St) (seq : String) (f : List String) : St × List String :=
       let (st', out) := finish st seq true m2 (if outcome == "ok" then "ok" else "panic") r' tm g
       (st', d0 ++ out)
     | _, _ => (st, [s!"BAD\t{seq}\ttick"])
+  | ["eng.esm", on, state] =>
+    match parseNat? on, parseReal state with
+    | some on, some r' =>
+      let (ok, m') := runOp st (.eng (.esm (on != 0)))
+      finish st seq ok m' "ok" r' [] (ghostOf st)
+    | _, _ => (st, [s!"BAD\t{seq}\tesm"])
   | ["eng.bid", who, app, mp, id, denom, amt, outcome, state] =>
     match parseNat? who, parseNat? app, parseNat? mp, parseNat? id, parseNat? denom, parseInt? amt, parseReal state with
     | some who, some app, some mp, some id, some denom, some amt, some r' =>
